@@ -55,6 +55,7 @@ package localstore
 //@   requires db != nil && indexesDistinct(db) && db.gcIndex.prefix.rid != db.retrievalAccessIndex.prefix.rid && db.gcIndex.prefix.rid != db.retrievalDataIndex.prefix.rid
 //@   requires queuedG(batchGen, db.gcIndex.prefix.rid, seq(rootItem.Address)) == 0 - 1
 //@   ensures counter-and-recorded-count-move-together: err == nil ==> gcSizeChange == gcAfter(commitGen, batchGen, db.gcIndex.prefix.rid, seq(rootItem.Address)) - old(gcStored(commitGen, db.gcIndex.prefix.rid, seq(rootItem.Address)))
+//@   ensures decrement-above-one-is-committed-at-once-for-later-chunks-of-the-batch: err == nil && old(gcStored(commitGen, db.gcIndex.prefix.rid, seq(rootItem.Address))) > 1 && gcSizeChange != 0 ==> gcStored(commitGen, db.gcIndex.prefix.rid, seq(rootItem.Address)) == old(gcStored(commitGen, db.gcIndex.prefix.rid, seq(rootItem.Address))) - 1
 //@   ensures counter-plus-one-queued: err == nil ==> queued(batchGen, db.pinIndex.prefix.rid, seq(item.Address)) == pinStored(db.pinIndex.prefix.rid, seq(item.Address)) + 1
 //@   ensures other-chunks-keep-their-counter: forall k Bytes :: k != seq(item.Address) ==> queued(batchGen, db.pinIndex.prefix.rid, k) == queued(old(batchGen), db.pinIndex.prefix.rid, k)
 
